@@ -3,11 +3,29 @@ from __future__ import annotations
 
 import ast
 
-import z3
+try:
+    import z3
+except Exception:  # concrete-only interpreter (/venv/bin/python)
+    z3 = None
 
 from . import values as V
 from .engine import ClassRef, EngineError, FuncRef, Ref, get_module
 from .values import SBool, SInt, SOpq, SSeq, is_sym
+
+
+class ForAll:
+    """universally quantified clause  forall k. fn(k)  about the elements of sequence `over`.
+    Proved by skolemisation (an arbitrary fresh k); when assumed it is attached to `over` and
+    instantiated at every index at which `over` is read (explicit instantiation, no quantifiers
+    reach the solver)."""
+
+    def __init__(self, fn, over, trigger=True, mod=None):
+        self.fn = fn
+        self.over = over
+        self.mod = mod  # prove separately for each residue class k = mod*q + r (keeps bit-position terms concrete)
+        # trigger=True: the quantified variable is the element index of `over`, so the fact is instantiated
+        # wherever `over` is read; trigger=False (e.g. bit indices): only goal-directed instantiation
+        self.trigger = trigger
 
 
 class RaiseSpec:
@@ -28,7 +46,7 @@ class RaiseSpec:
 
 
 class LoopSpec:
-    def __init__(self, name, inv, variant=None, unfold_init=None, unfold_step=None, target=None, rebind=(), shapes=None):
+    def __init__(self, name, inv, variant=None, unfold_init=None, unfold_step=None, target=None, rebind=(), shapes=None, cells=None, case_split=()):
         self.name = name
         self.inv = inv
         self.variant = variant
@@ -37,6 +55,8 @@ class LoopSpec:
         self.target = target
         self.rebind = set(rebind)
         self.shapes = shapes or {}
+        self.case_split = list(case_split)  # [(local name or None, fn(c, L) -> int expr)]: fork the body on its values
+        self.cells = cells or {}  # local name -> (elem kind) of the list cell it refers to when empty at loop entry
 
     def eval_inv(self, ctx, L):
         out = self.inv(ctx, L)
@@ -137,6 +157,10 @@ class Ctx(HeapSnap):
     def old(self):
         return self._old
 
+    @property
+    def bound(self):
+        return self.eng.contract._bound
+
     def view(self, v):
         return self.deref(v)
 
@@ -236,6 +260,7 @@ class Contract:
     mode = "exact"
     assumptions = ()  # free-text assumptions specific to this contract (reported in evidence)
     bounded_note = None
+    sample_bounds = {}  # input name -> (lo, hi): domain used by concrete sampling / replay search only
 
     # ---- to be provided by concrete contracts ----
     def setup(self, c):
